@@ -1013,7 +1013,7 @@ PROPS["C13"] = {
     "rule": "seeded tests with fault plans: at a random call index (constructor, checked rows, mid-clock writes) the scripted driver fails with an error code, or deviates from its first layout by dropping, "
             "adding, duplicating, swapping or substituting an output; 40% of the callers keep iterating after the error item; corpus: the panic-38 witness; oracle: driver's own record (no misattribution, "
             "no row on a deviating answer), call/row protocol; non-trivial = an error item or a constructor error occurred",
-    "proved": "a driver error is passed through unchanged as the item of exactly the failing call (constructor included); items depend on the driver only through its answers to the calls made; "
+    "proved": "fault transparency: on a test that reads no output (declared signals without random) the runs of a continuing caller against any two drivers agree on all rows, evaluation errors and the end, position by position, and stay in step after device failures; a driver error is passed through unchanged as the item of exactly the failing call (constructor included); items depend on the driver only through its answers to the calls made; "
               "a deviating answer (given a first answer of distinct expected signals) never yields a row but WrongNumberOfOutputs / WrongOutputOrder / an expression error; extraction never panics for any answers; no misattribution for every driver",
     "validated_only": "that the crate behaves as Iter.v under these fault plans (differential), including the fixed defect d850e2a",
     "assumptions": ["Iter.v models src/data_row_iterator.rs (checked by this run)"],
